@@ -1108,7 +1108,7 @@ func c16GenManyNotes(r *hx.Rng) (bsInput, bsFlags) {
 }
 
 func genC16(o *hx.Out, r *hx.Rng, tier string, replay string) error {
-	o.Rule = "text vs CSV: C14-style generated benchstat inputs (1-3 files, flag grid, missing cells, units with/without metadata, single-row tables) with extra zero/negative measurements (columns without geomean), run in process; per table the real ToText text and the real ToCSV records+warnings are compared cell by cell; per run the real Tables.ToCSV output (all records incl. blank separators and table-key header lines, warning stream) against the multi-table model, and every cell reference must name a data/summary record of its table; whole runs (the generic inputs plus multi-table inputs: 2-3 file configurations some lacking keys the others have, 1-3 units, 1-3 files, 1-10 samples, all-equal samples, differing benchmark sets, zero values, -table goos|pkg|goos,pkg|.config@alpha; and many-notes inputs: 5-8 benchmarks x 2-3 files with assume=exact and/or residue fields varying inside the cells, 10-30 different warnings in one table): the real Tables.ToText and Tables.ToCSV outputs against the table keys and tables the in-process Tables report - header lines reconstruct every table key in both renderings, per table text vs CSV with the warnings looked up at the real spreadsheet row, every reported warning names exactly its cell, footnote numbers distinct. benchtab: the real parse->Builder->ToTables->Table.ToText pipeline on 1-3 generated files (random/disjoint benchmark subsets, 1-7 samples, 1-2 units, -col .file | /format | .file,/format | goos): right borders of all header lines aligned, bars nested, no text beyond the border, no trailing blanks. texttab: random API call sequences (1-8 rows, 1-10 columns, spans 1-6 wider/narrower than the cells beneath, shrink patterns 0/30/60/100% incl. all-shrink spans, empty/blank cells, multi-byte text, margins) and benchstat-shaped tables with missing benchmarks; blank-tail tables (c16audit.go): 2-6 rows whose LAST printed cell has a blank text (empty, U+0020s, tab, U+00A0, U+3000) centred or right-aligned behind a visible margin (also margins ending in blanks), single or spanning, in a column made wide by another row, plus texts with blanks at their own ends; KeyHeader: random key slices over 1-4 fields with small value domains (incl. empty values, repeated non-adjacent prefixes). Gap classes (c16gaps.go): texttab tables whose multi-column header cells start in a column with a non-empty left margin and carry a label of width(columns below) - margin + d runes, d in -2..+5 (benchstat-shaped with 1-4 experiments and 1-2 header levels; generic bodies of single-column cells under 1-2 rows of spans with margins and shrink columns); real benchtab tables and whole runs whose file labels have that length relative to their column group; whole runs over files A, X1..Xk, D where every unit is measured in A, D and its own subset of the middle files (consecutive tables with equally many columns, the same first and last column key and different keys in between); row-scale cases (kind 6): per real table the ToText text and the cells' centres, rows whose least non-zero |centre| is negative, all-negative rows, rows mixing zero, negative and positive centres - the centres printed in the text are read back and judged by the C10 shared-scale clause (one prefix and precision per row, that of the least non-zero magnitude, every centre within half a unit of the last printed digit). non-trivial = table has a multi-column span / header merges at least one pair of keys"
+	o.Rule = "text vs CSV: C14-style generated benchstat inputs (1-3 files, flag grid, missing cells, units with/without metadata, single-row tables) with extra zero/negative measurements (columns without geomean), run in process; per table the real ToText text and the real ToCSV records+warnings are compared cell by cell; per run the real Tables.ToCSV output (all records incl. blank separators and table-key header lines, warning stream) against the multi-table model, and every cell reference must name a data/summary record of its table; whole runs (the generic inputs plus multi-table inputs: 2-3 file configurations some lacking keys the others have, 1-3 units, 1-3 files, 1-10 samples, all-equal samples, differing benchmark sets, zero values, -table goos|pkg|goos,pkg|.config@alpha; and many-notes inputs: 5-8 benchmarks x 2-3 files with assume=exact and/or residue fields varying inside the cells, 10-30 different warnings in one table): the real Tables.ToText and Tables.ToCSV outputs against the table keys and tables the in-process Tables report - header lines reconstruct every table key in both renderings, per table text vs CSV with the warnings looked up at the real spreadsheet row, every reported warning names exactly its cell, footnote numbers distinct. benchtab: the real parse->Builder->ToTables->Table.ToText pipeline on 1-3 generated files (random/disjoint benchmark subsets, 1-7 samples, 1-2 units, -col .file | /format | .file,/format | goos): right borders of all header lines aligned, bars nested, no text beyond the border, no trailing blanks. texttab: random API call sequences (1-8 rows, 1-10 columns, spans 1-6 wider/narrower than the cells beneath, shrink patterns 0/30/60/100% incl. all-shrink spans, empty/blank cells, multi-byte text, margins) and benchstat-shaped tables with missing benchmarks; blank-tail tables (c16audit.go): 2-6 rows whose LAST printed cell has a blank text (empty, U+0020s, tab, U+00A0, U+3000) centred or right-aligned behind a visible margin (also margins ending in blanks), single or spanning, in a column made wide by another row, plus texts with blanks at their own ends; KeyHeader: random key slices over 1-4 fields with small value domains (incl. empty values, repeated non-adjacent prefixes). Gap classes (c16gaps.go): texttab tables whose multi-column header cells start in a column with a non-empty left margin and carry a label of width(columns below) - margin + d runes, d in -2..+5 (benchstat-shaped with 1-4 experiments and 1-2 header levels; generic bodies of single-column cells under 1-2 rows of spans with margins and shrink columns); real benchtab tables and whole runs whose file labels have that length relative to their column group; whole runs over files A, X1..Xk, D where every unit is measured in A, D and its own subset of the middle files (consecutive tables with equally many columns, the same first and last column key and different keys in between); row-scale cases (kind 6): per real table the ToText text and the cells' centres, rows whose least non-zero |centre| is negative, all-negative rows, rows mixing zero, negative and positive centres - the centres printed in the text are read back and judged by the C10 shared-scale clause (one prefix and precision per row, that of the least non-zero magnitude, every centre within half a unit of the last printed digit); whole runs whose table-key values CSV has to quote (c16csvkeys.go): file configuration values and file labels with a comma, a double quote, blanks at their ends - the key lines of text and CSV must name the table key, the CSV must be read back by encoding/csv (otherwise recorded as kind 7). non-trivial = table has a multi-column span / header merges at least one pair of keys"
 	n := 3000
 	if tier == "thorough" {
 		n = 150000
@@ -1267,5 +1267,10 @@ func genC16(o *hx.Out, r *hx.Rng, tier string, replay string) error {
 	}
 	// round-4 gap classes (c16gaps.go): spans over a margin with labels as long as
 	// the room, runs of same-shaped consecutive tables, negative / mixed-sign rows
-	return c16GenGaps(o, r, tier)
+	if err := c16GenGaps(o, r, tier); err != nil {
+		return err
+	}
+	// round-5 gap class (c16csvkeys.go): table-key values CSV has to quote; a
+	// stream of its own
+	return c16GenCsvKeys(o, hx.NewRng(r.Seed()^0x6a09e667f3bcc909), tier, dir)
 }
